@@ -641,7 +641,7 @@ fn process_request_obj(request: &Request, dbs: &Arc<Databases>, client: &mut Cli
         } => {
             log::info!("Processing resolve for {} to {} ", key, value);
             // Replica set or admin auth resolving
-            if client.auth.load(Ordering::SeqCst) {
+            let resolve_response = if client.auth.load(Ordering::SeqCst) {
                 apply_to_database_name(
                     dbs,
                     client,
@@ -673,36 +673,47 @@ fn process_request_obj(request: &Request, dbs: &Arc<Databases>, client: &mut Cli
                         }
                     },
                     &PermissionKind::Read,
-                );
+                )
             } else {
-                apply_to_database(&dbs, &client, &|db| {
-                    if dbs.is_primary() {
-                        db.resolve_conflit(
-                            Change {
-                                key: key.clone(),
-                                value: value.clone(),
-                                version,
-                                opp_id,
-                                resolve_conflict: true,
-                            },
-                            &dbs,
-                        )
-                    } else {
-                        send_message_to_primary(
-                            get_resolve_message(
-                                opp_id,
-                                db_name.to_string(),
-                                key.clone(),
-                                value.clone(),
-                                version,
-                            ),
-                            dbs,
-                        );
-                        Response::Ok {}
-                    }
-                });
+                // A client resolves a conflict of the database it selected, and only if it may
+                // write the key (secure keys are for administrators only)
+                apply_if_safe_access(
+                    &dbs,
+                    &client,
+                    &key,
+                    &|db| {
+                        if dbs.is_primary() {
+                            db.resolve_conflit(
+                                Change {
+                                    key: key.clone(),
+                                    value: value.clone(),
+                                    version,
+                                    opp_id,
+                                    resolve_conflict: true,
+                                },
+                                &dbs,
+                            )
+                        } else {
+                            send_message_to_primary(
+                                get_resolve_message(
+                                    opp_id,
+                                    db_name.to_string(),
+                                    key.clone(),
+                                    value.clone(),
+                                    version,
+                                ),
+                                dbs,
+                            );
+                            Response::Ok {}
+                        }
+                    },
+                    PermissionKind::Write,
+                )
             };
-            return Response::Ok {};
+            return match resolve_response {
+                Response::Error { msg } => Response::Error { msg },
+                _ => Response::Ok {},
+            };
         }
         Request::ListCommands {} => apply_if_auth(&client.auth, &|| {
             let commands = Request::command_list();
